@@ -744,7 +744,7 @@ func init() {
 		ID:    "C08",
 		Level: "exploration",
 		Rule: "bounded-exhaustive: every ordered pair of sequences of length 1..4 over {a,b} (thorough 1..5) and 1..3 over {a,b,c} (thorough 1..4) x a fixed family of 40 matrices (symmetric, asymmetric gap row/column, all ties, zero gaps, zero everything, large negative mismatch, seeded random) " +
-			"x gap-open {0,-1,-3} for the affine aligners, all six aligners; random: lengths 1..200 over DNAgapped/DNAredundant/Protein with random or built-in (NUC.4, NUC.4.4, BLOSUM62, PAM250, BLOSUM45) matrices and gap-open 0..-11, related and unrelated pairs. " +
+			"x gap-open {0,-1,-3} for the affine aligners, all six aligners; random: lengths 1..200 over DNAgapped/DNAredundant/Protein with random or built-in (NUC.4, NUC.4.4, BLOSUM62, PAM250, BLOSUM45) matrices (a fifth of the random ones square but larger than the alphabet; in 1 case of 4 the same matrix object is edited in place and used again; 1 case of 8 with gap letters inside the sequences) and gap-open 0..-11, related and unrelated pairs. " +
 			"Oracle: score recomputed from coordinates, letters, matrix and gap parameters equals the optimum of clean-room O(nm) DPs (global, local, fitted by end position; affine with three states including adjacent opposite gaps). Non-trivial = alignment of >=2 pairs; distinct = aligner+parameters+sequences",
 		Batches:     batches,
 		Cases:       alnCases,
@@ -759,7 +759,7 @@ func init() {
 		ID:    "C09",
 		Level: "exploration",
 		Rule: "same inputs as C08, judged for shape and fidelity: pairs abut and form one monotone path, each is an equal-length block, a one-sided gap or empty with score 0, global alignments span both sequences, every pair's Score() equals the score recomputed from letters, matrix and gap parameters, " +
-			"the QLetters run equals the Letters run pair for pair, Format gives two equal-length rows reducing to the aligned subsequences; plus ill-typed calls (illegal letter at every position of either sequence, different alphabets, Letters vs QLetters, ragged and undersized matrices, alphabet without leading gap) that must return an error and not panic. " +
+			"the QLetters run equals the Letters run pair for pair, Format gives two equal-length rows reducing to the aligned subsequences; plus ill-typed calls (illegal letter at every position of either sequence; different alphabets, a twin alphabet with identical letters, a query without alphabet; Letters vs QLetters; ragged matrices incl. one row short and another long by the same amount, a row too many, every row too long, undersized - each for all six aligners; alphabet without leading gap) that must return an error and not panic. " +
 			"Non-trivial = alignment of >=2 pairs or an ill-typed call; distinct = aligner+parameters+sequences",
 		Batches:     batches,
 		Cases:       alnCases,
